@@ -422,6 +422,9 @@ func init() {
 			if c.Scen == ep.Name {
 				return ep.Worker(c)
 			}
+			if c.Scen == c19PrimPlan().Name {
+				return c19PrimPlan().Worker(c)
+			}
 			return p.Worker(c)
 		}
 		if len(c.Args) == 2 && c.Args[0] == "--replay" {
@@ -433,6 +436,10 @@ func init() {
 		}
 		sum := &EnumSummary{}
 		ep.Master(c, sum)
+		if sum.EngineErr != "" {
+			return EngineError("%s", sum.EngineErr)
+		}
+		c19PrimPlan().Master(c, sum)
 		if sum.EngineErr != "" {
 			return EngineError("%s", sum.EngineErr)
 		}
